@@ -28,12 +28,19 @@ structure Buf (α : Type) (n : Nat) where
 def Buf.ofFn {α n} (f : Fin n → α) : Buf α n := ⟨Array.ofFn f, Array.size_ofFn⟩
 def Buf.get {α n} (b : Buf α n) (i : Fin n) : α := b.arr[i.val]'(by rw [b.size_eq]; exact i.isLt)
 
-/-- `memo f = f` (lemma `memo_eq`), but evaluated once -/
-@[inline] def memo {α n} (f : Fin n → α) : Fin n → α := Buf.get (Buf.ofFn f)
-@[inline] def memo2 {α a b} (f : Fin a → Fin b → α) : Fin a → Fin b → α :=
-  memo (fun i => memo (f i))
-@[inline] def memo3 {α a b c} (f : Fin a → Fin b → Fin c → α) : Fin a → Fin b → Fin c → α :=
-  memo (fun i => memo2 (f i))
+/-! Stages of the pipeline are materialised as *data* (`Buf.ofFn₃ f`) and read back with
+`.get₃`; `(Buf.ofFn₃ f).get₃ = f` (lemma `get₃_ofFn₃`).  (A `let`-bound *closure* would be
+re-evaluated by the compiled code on every access.) -/
+abbrev Buf2 (α : Type) (a b : Nat) := Buf (Buf α b) a
+abbrev Buf3 (α : Type) (a b c : Nat) := Buf (Buf2 α b c) a
+
+@[noinline] def Buf.ofFn₂ {α a b} (f : Fin a → Fin b → α) : Buf2 α a b :=
+  Buf.ofFn (fun i => Buf.ofFn (f i))
+@[noinline] def Buf.ofFn₃ {α a b c} (f : Fin a → Fin b → Fin c → α) : Buf3 α a b c :=
+  Buf.ofFn (fun i => Buf.ofFn (fun j => Buf.ofFn (f i j)))
+def Buf.get₂ {α a b} (B : Buf2 α a b) (i : Fin a) (j : Fin b) : α := (B.get i).get j
+def Buf.get₃ {α a b c} (B : Buf3 α a b c) (i : Fin a) (j : Fin b) (k : Fin c) : α :=
+  ((B.get i).get j).get k
 
 /-! ### row-major flat indices -/
 
@@ -284,29 +291,29 @@ def core {h d B L S nkv : Nat} (ops : Ops R) (vr : Variant) (nz : Nat)
     (bk bv : Fin nkv → Fin (h * d) → R) (m : Option (Mask3 R)) (kp : Kpm R) :
     Except Err (Core R B h L (S + nkv + nz) d) := do
   -- add_bias_kv
-  let k1 := memo3 (seqBias k bk)
-  let v1 := memo3 (seqBias v bv)
+  let k1 := Buf.ofFn₃ (seqBias k bk)
+  let v1 := Buf.ofFn₃ (seqBias v bv)
   let m1 := m.map (Mask3.pad nkv)
   let kp1 := kp.pad nkv
   -- head split
-  let qh := memo3 (splitHeads q)
-  let kh := memo3 (splitHeads k1)
-  let vh := memo3 (splitHeads v1)
+  let qh := Buf.ofFn₃ (splitHeads q)
+  let kh := Buf.ofFn₃ (splitHeads k1.get₃)
+  let vh := Buf.ofFn₃ (splitHeads v1.get₃)
   Kpm.check B (S + nkv) kp1
   -- add_zero_attn
-  let kh2 := memo3 (zeroAttn nz kh)
-  let vh2 := memo3 (zeroAttn nz vh)
+  let kh2 := Buf.ofFn₃ (zeroAttn nz kh.get₃)
+  let vh2 := Buf.ofFn₃ (zeroAttn nz vh.get₃)
   let m2 := m1.map (Mask3.pad nz)
   let kp2 := kp1.pad nz
-  let s0 := memo3 (bmmQK qh kh2)
+  let s0 := Buf.ofFn₃ (bmmQK qh.get₃ kh2.get₃)
   let s1 ← match m2 with
-    | none => pure s0
-    | some mm => mm.apply ops.ninf s0
+    | none => pure s0.get₃
+    | some mm => mm.apply ops.ninf s0.get₃
   let s2 ← kp2.apply vr.kpmFloat ops.ninf s1
-  let s2 := memo3 s2
-  let w := memo3 (fun j l => ops.softmax _ (s2 j l))
-  let attn := memo3 (bmmWV w vh2)
-  pure ⟨s2, w, attn⟩
+  let s2 := Buf.ofFn₃ s2
+  let w := Buf.ofFn₃ (fun j l => ops.softmax _ (s2.get₃ j l))
+  let attn := Buf.ofFn₃ (bmmWV w.get₃ vh2.get₃)
+  pure ⟨s2.get₃, w.get₃, attn.get₃⟩
 
 /-- `attn_output_weights.view(B, h, L, S).sum(dim=1) / num_heads` -/
 def avgWeights {B h L S2} (ops : Ops R) (w : Fin (B * h) → Fin L → Fin S2 → R) :
@@ -328,31 +335,35 @@ def forwardSF {h d Kd Vd nkv B L S : Nat} (ops : Ops R) (vr : Variant) (P : Para
     (nz : Nat) (query : Fin L → Fin B → Fin (h * d) → R) (key : Fin S → Fin B → Fin Kd → R)
     (value : Fin S → Fin B → Fin Vd → R) (am : AttnMask R) (kp : Kpm R) :
     Except Err (Out R L B (h * d) B h L (S + nkv + nz)) := do
-  let q := memo3 (scaleQ ops (lin3 P.q query))
-  let k := memo3 (lin3 P.k key)
-  let v := memo3 (lin3 P.v value)
+  let q := Buf.ofFn₃ (scaleQ ops (lin3 P.q query))
+  let k := Buf.ofFn₃ (lin3 P.k key)
+  let v := Buf.ofFn₃ (lin3 P.v value)
   let m ← checkMask L S (B * h) am
-  let c ← core ops vr nz q k v P.bk P.bv m kp
-  let merged := memo3 (mergeHeads c.attn)
-  pure ⟨memo3 (lin3 P.o merged), memo3 (avgWeights ops c.w), c.scores⟩
+  let c ← core ops vr nz q.get₃ k.get₃ v.get₃ P.bk P.bv m kp
+  let merged := Buf.ofFn₃ (mergeHeads c.attn)
+  let out := Buf.ofFn₃ (lin3 P.o merged.get₃)
+  let w := Buf.ofFn₃ (avgWeights ops c.w)
+  pure ⟨out.get₃, w.get₃, c.scores⟩
 
 /-- `DPMultiheadAttention.forward`, `batch_first=True` (inputs and output are `(B, ·, ·)`) -/
 def forwardBF {h d Kd Vd nkv B L S : Nat} (ops : Ops R) (vr : Variant) (P : Params R h d Kd Vd nkv)
     (nz : Nat) (query : Fin B → Fin L → Fin (h * d) → R) (key : Fin B → Fin S → Fin Kd → R)
     (value : Fin B → Fin S → Fin Vd → R) (am : AttnMask R) (kp : Kpm R) :
     Except Err (Out R B L (h * d) B h L (S + nkv + nz)) := do
-  let q := memo3 (transpose01 (scaleQ ops (lin3 P.q query)))
-  let k := memo3 (transpose01 (lin3 P.k key))
-  let v := memo3 (transpose01 (lin3 P.v value))
+  let q := Buf.ofFn₃ (transpose01 (scaleQ ops (lin3 P.q query)))
+  let k := Buf.ofFn₃ (transpose01 (lin3 P.k key))
+  let v := Buf.ofFn₃ (transpose01 (lin3 P.v value))
   -- `query.size(0)` / `key.size(0)` are read from the *untransposed* inputs
   let m ← match vr.maskCheck with
     | .asCoded => checkMask B B (B * h) am
     | .repaired => checkMask L S (B * h) am
-  let c ← core ops vr nz q k v P.bk P.bv m kp
+  let c ← core ops vr nz q.get₃ k.get₃ v.get₃ P.bk P.bv m kp
   let merged := match vr.merge with
-    | .asCoded => memo3 (mergeHeadsBFCoded c.attn)
-    | .repaired => memo3 (transpose01 (mergeHeads c.attn))
-  pure ⟨memo3 (lin3 P.o merged), memo3 (avgWeights ops c.w), c.scores⟩
+    | .asCoded => Buf.ofFn₃ (mergeHeadsBFCoded c.attn)
+    | .repaired => Buf.ofFn₃ (transpose01 (mergeHeads c.attn))
+  let out := Buf.ofFn₃ (lin3 P.o merged.get₃)
+  let w := Buf.ofFn₃ (avgWeights ops c.w)
+  pure ⟨out.get₃, w.get₃, c.scores⟩
 
 /-! ### the specification: per batch element and head `softmax(q_h k_hᵀ·scale + mask) v_h`,
 heads concatenated, output projection; weights averaged over heads.  Masks are typed with the
@@ -421,28 +432,30 @@ def specHead {h d B L S nkv : Nat} (ops : Ops R) (nz : Nat)
     (q : Fin L → Fin B → Fin (h * d) → R) (ks vs : Fin (S + nkv + nz) → Fin B → Fin (h * d) → R)
     (m : SMask R (B * h) L S) (kp : SKpm R B S) (b : Fin B) (hd : Fin h) :
     Head R L (S + nkv + nz) d :=
-  let scores : Fin L → Fin (S + nkv + nz) → R := memo2 (fun l s =>
+  let scores := Buf.ofFn₂ (fun (l : Fin L) (s : Fin (S + nkv + nz)) =>
     kp.on ops.ninf (nkv + nz) b (s.cast (add_assoc' ..))
       (m.on ops.ninf (nkv + nz) (enc2 b hd) l (s.cast (add_assoc' ..))
         (sumFin d (fun c => q l b (enc2 hd c) * ks s b (enc2 hd c)))))
-  let w := memo2 (fun l => ops.softmax _ (scores l))
-  let o := memo2 (fun l c => sumFin (S + nkv + nz) (fun s => w l s * vs s b (enc2 hd c)))
-  ⟨scores, w, o⟩
+  let w := Buf.ofFn₂ (fun l => ops.softmax _ (scores.get₂ l))
+  let o := Buf.ofFn₂ (fun (l : Fin L) (c : Fin d) =>
+    sumFin (S + nkv + nz) (fun s => w.get₂ l s * vs s b (enc2 hd c)))
+  ⟨scores.get₂, w.get₂, o.get₂⟩
 
 /-- the function `nn.MultiheadAttention` computes (sequence-first layout) -/
 def spec {h d Kd Vd nkv B L S : Nat} (ops : Ops R) (P : Params R h d Kd Vd nkv) (nz : Nat)
     (query : Fin L → Fin B → Fin (h * d) → R) (key : Fin S → Fin B → Fin Kd → R)
     (value : Fin S → Fin B → Fin Vd → R) (m : SMask R (B * h) L S) (kp : SKpm R B S) :
     Out R L B (h * d) B h L (S + nkv + nz) :=
-  let q := memo3 (scaleQ ops (lin3 P.q query))
-  let ks := memo3 (specKeys nz (lin3 P.k key) P.bk)
-  let vs := memo3 (specKeys nz (lin3 P.v value) P.bv)
-  let heads := memo2 (fun b hd => specHead ops nz q ks vs m kp b hd)
+  let q := Buf.ofFn₃ (scaleQ ops (lin3 P.q query))
+  let ks := Buf.ofFn₃ (specKeys nz (lin3 P.k key) P.bk)
+  let vs := Buf.ofFn₃ (specKeys nz (lin3 P.v value) P.bv)
+  let heads := Buf.ofFn₂ (fun (b : Fin B) (hd : Fin h) => specHead ops nz q.get₃ ks.get₃ vs.get₃ m kp b hd)
   -- heads concatenated along the embedding axis: column `e` belongs to head `e / d`
-  let cat : Fin L → Fin B → Fin (h * d) → R := memo3 (fun l b e => (heads b (decL e)).o l (decR e))
-  ⟨memo3 (lin3 P.o cat),
-   memo3 (fun b l s => ops.divH (sumFin h (fun hd => (heads b hd).w l s))),
-   memo3 (fun j l s => (heads (decL j) (decR j)).scores l s)⟩
+  let cat := Buf.ofFn₃ (fun (l : Fin L) (b : Fin B) (e : Fin (h * d)) => (heads.get₂ b (decL e)).o l (decR e))
+  let out := Buf.ofFn₃ (lin3 P.o cat.get₃)
+  let w := Buf.ofFn₃ (fun (b : Fin B) (l : Fin L) (s : Fin (S + nkv + nz)) =>
+    ops.divH (sumFin h (fun hd => (heads.get₂ b hd).w l s)))
+  ⟨out.get₃, w.get₃, fun j l s => (heads.get₂ (decL j) (decR j)).scores l s⟩
 
 /-- batch-first layout: the same function between transposes -/
 def specBF {h d Kd Vd nkv B L S : Nat} (ops : Ops R) (P : Params R h d Kd Vd nkv) (nz : Nat)
